@@ -50,6 +50,11 @@ structure Build where
   accepted silently. `false` = the code as it is; `true` = the proposed repair (the argument is
   read whole through `plain_text`, like the MDC key since 7be4123). -/
   tzWholeArg : Bool := true
+  /-- repair of `C09/mdc-empty-argument` (round 6): an explicitly EMPTY MDC key or default argument
+  (`{X()}`, `{X(k)()}`) is the empty string — the documentation says the default "defaults to the
+  empty string", and `""` is a legal MDC key. `false` = the code before the repair: `plain_text`
+  answers `invalid MDC key` / `invalid MDC default` for an empty argument. -/
+  mdcEmptyOk : Bool := true
 
 /-- the verdict the construction-time check consults -/
 def Build.dateOk (B : Build) (fmt : List Char) : Bool :=
@@ -155,18 +160,22 @@ def dateChunk (B : Build) (args : List (List Piece)) (p : Params) : Chunk :=
       | .error e => .error e
     | _ => .leaf (.time format false) p
 
+/-- `Some(arg) if arg.is_empty() => String::new()` in front of `plain_text` (the repair) -/
+def mdcArg (B : Build) (invalid : List Char) (arg : List Piece) : Except (List Char) (List Char) :=
+  if B.mdcEmptyOk && arg.isEmpty then .ok [] else mdcArgText B invalid arg
+
 def mdcChunk (B : Build) (args : List (List Piece)) (p : Params) : Chunk :=
   if args.length > 2 then .error eAtMostTwo
   else
     match args with
     | [] => .error eMissingMdcKey
     | k :: rest =>
-      match mdcArgText B eInvalidMdcKey k with
+      match mdcArg B eInvalidMdcKey k with
       | .error e => .error e
       | .ok key =>
         match rest with
         | d :: _ =>
-          match mdcArgText B eInvalidMdcDefault d with
+          match mdcArg B eInvalidMdcDefault d with
           | .error e => .error e
           | .ok dflt => .leaf (.mdc key dflt) p
         | [] => .leaf (.mdc key []) p
